@@ -327,24 +327,47 @@ def impl_env(hashseed='0'):
     return env
 
 
+class ImplTimeout(Exception):
+    pass
+
+
 def run_impl(script, payload, timeout=900, hashseed='0'):
     """Run harness/impl/<script> in a fresh interpreter against /repo's working tree.
-    payload (JSON) on stdin, JSON on stdout (last line)."""
-    p = subprocess.run([PY, os.path.join(VERIF, 'harness', 'impl', script)], input=json.dumps(payload),
-                       env=impl_env(hashseed), stdout=subprocess.PIPE, stderr=subprocess.PIPE, text=True,
-                       timeout=timeout, cwd='/tmp')
+    payload (JSON) on stdin, JSON on stdout (last line).  The runner gets its own process group so that, when it does not return
+    within `timeout` seconds (a deadlock of worker processes, an endless search), it is killed together with its children."""
+    import signal
+    p = subprocess.Popen([PY, os.path.join(VERIF, 'harness', 'impl', script)], env=impl_env(hashseed), stdin=subprocess.PIPE,
+                         stdout=subprocess.PIPE, stderr=subprocess.PIPE, text=True, cwd='/tmp', start_new_session=True)
+    try:
+        out, err = p.communicate(json.dumps(payload), timeout=timeout)
+    except subprocess.TimeoutExpired:
+        try:
+            os.killpg(p.pid, signal.SIGKILL)
+        except OSError:
+            pass
+        p.communicate()
+        raise ImplTimeout(f'implementation runner {script} did not return within {timeout} s')
     if p.returncode != 0:
-        raise RuntimeError(f'implementation runner {script} failed (rc={p.returncode}):\n{p.stderr[-3000:]}')
-    line = p.stdout.strip().splitlines()[-1]
+        raise RuntimeError(f'implementation runner {script} failed (rc={p.returncode}):\n{err[-3000:]}')
+    line = out.strip().splitlines()[-1]
     return json.loads(line)
 
 
 def run_impl_parallel(script, payloads, timeout=900, hashseeds=None):
+    """one runner per payload; a runner that does not return in time yields {'results': [{'error': 'TIMEOUT ...'}, ...]} (one entry per
+    case of its payload) so that the caller reports it with the case as the failing input instead of waiting or crashing"""
     import concurrent.futures
     out = [None] * len(payloads)
+
+    def one(i, pl):
+        try:
+            return run_impl(script, pl, timeout, (hashseeds[i] if hashseeds else '0'))
+        except ImplTimeout as e:
+            ncase = len(pl.get('cases', [None])) if isinstance(pl, dict) else 1
+            return {'results': [{'error': 'TIMEOUT: ' + str(e), 'errors': ['TIMEOUT: ' + str(e)], 'timeout': True} for _ in range(max(1, ncase))],
+                    'timeout': True}
     with concurrent.futures.ThreadPoolExecutor(max_workers=NCPU) as ex:
-        futs = {ex.submit(run_impl, script, pl, timeout, (hashseeds[i] if hashseeds else '0')): i
-                for i, pl in enumerate(payloads)}
+        futs = {ex.submit(one, i, pl): i for i, pl in enumerate(payloads)}
         for f in concurrent.futures.as_completed(futs):
             out[futs[f]] = f.result()
     return out
